@@ -156,6 +156,9 @@ def run(chk, facts, tier, only=None):
         chk.include(c05, "C05.R1", "C02.R7", facts)     # references: wire <: expected decided as the spec's rules decide it
         chk.include(c05, "C05.R3", "C02.R8", facts)     # ... with a sound memo (a non-subtype reference fails)
         chk.include(c07, "C07.R3", "C02.R9", facts)     # a failed coercion under opt restores the whole decoder state
+        import c08
+        chk.include(c08, "C08.R5", "C02.R10", facts)    # dispatch: each expected constructor (and each big-number fast path) goes to its own routine
+        chk.include(c08, "C08.R7", "C02.R11", facts)    # ... and each routine hands the visitor the kind of value it is for (no shortcut around validation)
 
     for rid, desc, fn in (("C02.R1", "every wire read is preceded by tests of both the expected and the wire type", r1),
                           ("C02.R2", "the optional-omission set is {opt, null, reserved} at every site that implements it", r2),
